@@ -1232,7 +1232,12 @@ def transform(fn, proceed, to_instrument=True, set_conformer=True):
             for part in fn.__qualname__.split(".")[:-1]
             if part != "<locals>"
         ]
-        code_registry.assimilate(co, (co.co_filename, *qualpath))
+        if not code_registry.backcodes.get(co):
+            # Only if the registry does not know this code yet: registering it
+            # again would point its path, and the paths of the functions
+            # defined inside of it, back at their original code even while
+            # an instrumented variant is installed on them
+            code_registry.assimilate(co, (co.co_filename, *qualpath))
     except ImportError:  # pragma: no cover
         pass
 
